@@ -134,7 +134,9 @@ fn generation(cx: &mut Cx, h: NodeId, hi: usize, g: u64, op: u64, inp: Rc<Inputs
         }
         3 => {
             let cm = inp.committed.clone();
-            cx.step(h, "commit", opts, move || api::commit(suite, &Some(cm)), move |cx, st| {
+            let absent = cm.is_empty() && cx.ch.chance("commit_absent_list", 1, 2);
+            if absent { cx.count("probe.commit_with_absent_list"); }
+            cx.step(h, "commit", opts, move || api::commit(suite, &if absent { None } else { Some(cm) }), move |cx, st| {
                 let Ok(Ok((cwp, blind))) = st.out else { cx.log(format!("{origin}: commit failed (C05's business)")); return; };
                 cx.eval(&[b"commit", &cwp], true);
                 inspect_commit(cx, &mut hist.borrow_mut(), &inp, &cwp, &blind, &inp.committed, origin);
